@@ -98,6 +98,10 @@ static const char *wf(const ESL_SQ *s, int kind)
     if (!s->abc) return "no-abc";
     for (i = 1; i <= s->n; i++) if (s->dsq[i] >= s->abc->Kp) return "dsq-code";
   } else return "no-seq";
+  /* optional per-residue annotation must fit its buffer too (it is sized like the residue array) */
+  if (s->ss && strlen(s->seq ? s->ss : s->ss + 1) + (s->seq ? 1 : 2) > (size_t) s->salloc) return "ss-overflows-salloc";
+  for (i = 0; i < s->nxr; i++)
+    if (s->xr && s->xr[i] && strlen(s->seq ? s->xr[i] : s->xr[i] + 1) + (s->seq ? 1 : 2) > (size_t) s->salloc) return "xr-overflows-salloc";
   switch (kind) {
   case 'w': if (!(s->start == 1 && s->end == s->n && s->C == 0 && s->W == s->n && s->L == s->n)) return "coords-whole"; break;
   case 'i': if (!(s->n == 0 && s->start == 0 && s->end == 0 && s->C == 0 && s->W == 0 && s->L >= 0)) return "coords-info"; break;
@@ -364,7 +368,7 @@ static void h_op(void)
     if (!h_argi("long", 0)) { for (i = 0; i < blk->listSize; i++) esl_sq_Reuse(blk->list + i); }
     else if (!blk->complete && blk->count > 0) {
       if (blk->count > 1) esl_sq_Copy(blk->list + blk->count - 1, blk->list);
-      blk->list->C = ESL_MIN(h_argi("ctx", 0), blk->list->n);
+      blk->list->C = h_argi("ctx", 0);     /* the requested overlap, as the callers set it (it may exceed the carried-over piece) */
     }
     status = esl_sqio_ReadBlock(sqfp, blk, (int) h_argi("maxres", -1), (int) h_argi("maxseq", -1), (int) h_argi("init", 0), (int) h_argi("long", 0));
     if (status == eslOK) {
